@@ -144,7 +144,7 @@ def rule_F2(ctx):
 # ====================================================================== helpers for F3/F4
 import re as _re
 # result temporaries and renamed helper locals introduced by sa.inline
-_INLINED_NAME = _re.compile(r"^(__ret__\w+|\w+__[A-Za-z_]\w*\d+)$")
+_INLINED_NAME = _re.compile(r"^(__ret__i\d+(__i\d+)*|\w+?(__i\d+)+)$")
 
 
 def local_def(fnode, name, _depth=0):
@@ -661,6 +661,76 @@ def rule_F10(ctx):
                 % fmt_atoms([a for a in own if "status" in str(a[1]) and "current" not in str(a[1])])))
     if not n:
         raise AnalysisError("unreachable-join override (status := failed) not found")
+    return res
+
+
+# ====================================================================== F11
+def rule_F11(ctx):
+    """An accepted rerun has something to do: the forced status write 'resuming' in the rerun
+    path is control-dependent on a non-empty set of rerun candidates (or of work that was still
+    due).  Unconditionally it turns a completed workflow that has nothing to rerun - e.g. a
+    succeeded one under the default request - into a resuming workflow that no event will ever
+    move again."""
+    res = RuleResult("F11", "the rerun path moves the workflow to resuming only when there is "
+                            "at least one task to rerun or to continue")
+    prog = ctx.prog
+    entry = "conducting.WorkflowConductor.request_workflow_rerun"
+    n = 0
+    for e in effects_of(ctx, entry):
+        if e.path != ("WS", "status"):
+            continue
+        v = assigned_value(e)
+        try:
+            folded = prog.fold(v, e.func.module) if v is not None else None
+        except NotFoldable:
+            folded = None
+        if folded != "resuming":
+            continue
+        n += 1
+        f = e.func
+        inst = (f.qualname, norm_src(e.node))
+        own = [a for q, a in e.guards if q == f.qualname]
+
+        def derives_from_candidates(name, depth=0, seen=None):
+            seen = seen if seen is not None else set()
+            if name in seen or depth > 5:
+                return False
+            seen.add(name)
+            if name in f.params and name not in ("self", "cls"):
+                return True
+            for d in local_def(f.node, name):
+                val = getattr(d, "value", None)
+                if val is None:
+                    continue
+                if any(callee_name(c) in ("get_terminal_tasks", "get_staged_tasks")
+                       for c in ast.walk(val) if isinstance(c, ast.Call)):
+                    return True
+                for x in ast.walk(val):
+                    if isinstance(x, ast.Name) and derives_from_candidates(x.id, depth + 1, seen):
+                        return True
+            return False
+
+        def flat(ats):
+            for a in ats:
+                if a[0] in ("or", "and"):
+                    for alt in a[1]:
+                        for x in flat(alt):
+                            yield x
+                else:
+                    yield a
+        ok = any(a[0] == "truthy" and a[1].isidentifier() and derives_from_candidates(a[1])
+                 for a in flat(own))
+        if ok:
+            res.holds(inst)
+        else:
+            res.violated(inst, site_finding(
+                "F11", e, "the workflow status is forced to resuming whether or not the request "
+                "selected any task to rerun or continue (guards: %s): a completed workflow with "
+                "nothing to rerun is left resuming for ever" % fmt_atoms(
+                    [a for a in own if a[0] in ("truthy", "falsy")]),
+                construct="resuming without a candidate: " + norm_src(e.node)))
+    if not n:
+        raise AnalysisError("request_workflow_rerun no longer sets the status to resuming")
     return res
 
 
